@@ -57,6 +57,17 @@ def rule_who_may_send(ctx: Ctx) -> None:
         ok = bool(tests) and g.path_avoiding(g.entry, lambda x: x is sn, lambda x: x in tests) is None
         ctx.check(ok, "C20.1", "the limiter is consulted before every send", fn, send[0], "consume() dominates the send", "a request can be sent "
                   "without consuming a token")
+        # `if self._tb and ...` means "a limiter is configured": sound only while the limiter object's truthiness is its identity
+        truthy_use = [x for n_ in g.nodes if n_.kind == "test" for x in ([n_.ast] + [v for b in ast.walk(n_.ast) if isinstance(b, ast.BoolOp) for v in b.values]
+                                                                       + [u.operand for u in ast.walk(n_.ast) if isinstance(u, ast.UnaryOp) and isinstance(u.op, ast.Not)])
+                      if A.dotted(x) == "self._tb"]
+        if truthy_use:
+            tbc = ctx.repo.cls(TB)
+            magic = [m.name for m in tbc.node.body if isinstance(m, (ast.FunctionDef, ast.AsyncFunctionDef)) and m.name in ("__bool__", "__len__")]
+            ctx.check(not magic and tbc.bases in ([], ["object"]), "C20.1", "the limiter's truth value is 'a limiter is configured'", fn, truthy_use[0],
+                      "TokenBucketLimiter defines neither __bool__ nor __len__", f"TokenBucketLimiter defines {magic or tbc.bases}: `if self._tb and ...` is false for "
+                      "a configured limiter in some state (e.g. no whole token left), consume() is skipped exactly when throttling is needed and "
+                      "requests are sent unthrottled", key_text="limiter truthiness")
         if tests:
             t = tests[0]
             txt = ast.unparse(t.ast)
